@@ -88,6 +88,7 @@ structure G where
   k : Nat := 0                 -- maxRetrans
   rtoMax : Float := 60000.0
   run : Option Run := none
+  maxHeld : Nat := 0           -- most callbacks ever held back at once in this sequence (environment fact)
   deriving Inhabited
 
 /-- whole milliseconds of interval `n`, as nanoseconds; `none` when the timing law is not
@@ -157,6 +158,10 @@ def onOp (g : G) (op : List String) (rtoArg : Float) (now : Nat) (ret : String) 
 (those events happened after the call returned); for `sleep/run/hold` the events come first. -/
 def timerCheck (g : G) (op : List String) (rtoArg : Float) (now : Nat) (ret : String) (held : Nat)
     (evs : List (Nat × Ev)) : G × Option String :=
+  let g := { g with maxHeld := max g.maxHeld held }
+  -- `pending` is a uint8: flag verdicts of sequences that kept ≥ 255 callbacks waiting at once
+  let tag (e : Option String) : Option String :=
+    e.map fun m => if g.maxHeld ≥ 255 then m ++ " [>=255 callbacks were outstanding at once]" else m
   let events (g : G) : G × Option String :=
     let (g, err) := evs.foldl (fun (acc : G × Option String) (te : Nat × Ev) =>
         let (g', e') := onEvent acc.1 te.1 te.2
@@ -172,10 +177,10 @@ def timerCheck (g : G) (op : List String) (rtoArg : Float) (now : Nat) (ret : St
   if opFirst then
     let (g, e1) := onOp g op rtoArg now ret held
     let (g, e2) := events g
-    (g, e1 <|> e2)
+    (g, tag (e1 <|> e2))
   else
     let (g, e1) := events g
     let (g, e2) := onOp g op rtoArg now ret held
-    (g, e1 <|> e2)
+    (g, tag (e1 <|> e2))
 
 end TimerSpec
